@@ -205,6 +205,15 @@ def cases(tier, rng):
     for i in range(4000 if tier == "thorough" else 400):
         ev, n, sp, cl = gen(rng, rng.range(3, 60), rng.chance(1, 2))
         cs.append(mk(ev, n, sp, cl, "random"))
+    # the same kind of history over the TCP carrier (a dns+tcp endpoint hands the listener TCP addresses; a stranger on the owner's host
+    # has another source port there too)
+    for i in range(1000 if tier == "thorough" else 100):
+        ev, n, sp, cl = gen(rng, rng.range(3, 60), rng.chance(1, 2))
+        c = mk(ev, n, sp, cl, "random-tcp")
+        c["line"] = "c13t" + c["line"][3:]
+        if c.get("key"):
+            c["key"] = c["line"]
+        cs.append(c)
     return cs
 
 
